@@ -112,6 +112,10 @@ def selection(repo: Repo, chk: Check) -> None:
 
 def _key_lambda(repo: Repo, f: Func, key: t.Optional[ast.expr]) -> t.Optional[ast.expr]:
     """A key given as the name of a one-expression function is read as the equivalent lambda."""
+    if isinstance(key, ast.Call) and repo.dotted(key.func, f.mod) == "operator.attrgetter" and not key.keywords and key.args and all(isinstance(a, ast.Constant) and isinstance(a.value, str) and "." not in a.value for a in key.args):
+        # operator.attrgetter("a") / attrgetter("a", "b"): the attribute, or the tuple of attributes
+        reads: t.List[ast.expr] = [ast.Attribute(value=ast.Name(id="rec__g", ctx=ast.Load()), attr=a.value, ctx=ast.Load()) for a in key.args]  # type: ignore[attr-defined]
+        return ast.Lambda(args=ast.arguments(posonlyargs=[], args=[ast.arg(arg="rec__g")], kwonlyargs=[], kw_defaults=[], defaults=[]), body=reads[0] if len(reads) == 1 else ast.Tuple(elts=reads, ctx=ast.Load()))
     if isinstance(key, ast.Attribute) and isinstance(key.value, ast.Name):
         # a method used unbound as the key: SrvRecord.sort_key
         c = repo.resolve_name(key.value.id, f.mod)
@@ -141,6 +145,33 @@ def _as_sorted_selection(repo: Repo, f: Func, e: ast.expr) -> ast.expr:
         if len(sorts) == 1 and not others and not sorts[0].args:
             call = ast.Call(func=ast.Name(id="sorted", ctx=ast.Load()), args=[ast.Name(id=name, ctx=ast.Load())], keywords=copy.deepcopy(sorts[0].keywords))
             e = ast.Subscript(value=call, slice=e.slice, ctx=ast.Load())
+        elif len(sorts) >= 2 and not others and not any(c.args for c in sorts) and all(isinstance(st, ast.Expr) and isinstance(st.value, ast.Call) for st in f.node.body if any(c is getattr(st, "value", None) for c in sorts)) and sum(1 for st in f.node.body if isinstance(st, ast.Expr) and any(c is st.value for c in sorts)) == len(sorts):
+            # several stable sorts in a row: the last one is the primary key, the earlier ones break its ties (list.sort
+            # keeps the order of equal elements, also with reverse=True); a reversed pass on a number is the pass on its negation
+            order = [st.value for st in f.node.body if isinstance(st, ast.Expr) and any(c is st.value for c in sorts)]
+            parts: t.List[ast.expr] = []
+            okm = True
+            for c in reversed(order):
+                kws = {k.arg: k.value for k in c.keywords}
+                key = _key_lambda(repo, f, kws.get("key"))
+                rev = kws.get("reverse")
+                if not isinstance(key, ast.Lambda) or len(key.args.args) != 1 or (rev is not None and not (isinstance(rev, ast.Constant) and isinstance(rev.value, bool))) or set(kws) - {"key", "reverse"}:
+                    okm = False
+                    break
+                p_ = key.args.args[0].arg
+
+                class R_(ast.NodeTransformer):
+                    def visit_Name(self, n: ast.Name) -> ast.AST:
+                        return ast.Name(id="rec__k", ctx=n.ctx) if n.id == p_ else n
+
+                body = R_().visit(copy.deepcopy(key.body))
+                if rev is not None and rev.value:
+                    body = ast.UnaryOp(op=ast.USub(), operand=body)
+                parts.append(body)
+            if okm:
+                lam = ast.Lambda(args=ast.arguments(posonlyargs=[], args=[ast.arg(arg="rec__k")], kwonlyargs=[], kw_defaults=[], defaults=[]), body=ast.Tuple(elts=parts, ctx=ast.Load()))
+                call = ast.Call(func=ast.Name(id="sorted", ctx=ast.Load()), args=[ast.Name(id=name, ctx=ast.Load())], keywords=[ast.keyword(arg="key", value=lam)])
+                e = ast.Subscript(value=call, slice=e.slice, ctx=ast.Load())
     for n in ast.walk(e):
         if isinstance(n, ast.Call):
             for kw in n.keywords:
